@@ -17,6 +17,7 @@ import (
 	"github.com/lindb/lindb/pkg/option"
 	"github.com/lindb/lindb/pkg/timeutil"
 	"github.com/lindb/lindb/tsdb"
+	"github.com/lindb/lindb/verifharness/sim/ev"
 	"github.com/lindb/lindb/verifharness/sim/node"
 )
 
@@ -150,21 +151,22 @@ func protoOf(s *seriesT) *protoMetricsV1.Metric {
 // warmUID names the tag-less series of a metric in the model.
 func warmUID(metric string) string { return "~warm/" + metric }
 
-// warm writes one point of the tag-less series of the metric. The first row of a metric that the
-// in-memory metadata does not know yet (new metric, or any metric after a restart) is handled by
-// the metadata worker (GenFieldID) and by the shard's index worker (GenTagKeyID) concurrently, and
-// metricSchemaStore.genFieldID/genTagKeyID race on the schema object (check outside the lock; the
-// schema-store variant of design defect D2, owned by C09): a field or tag key is lost for good,
-// nondeterministically. A first row without tags never reaches GenTagKeyID, so the race cannot
-// happen; the tag-less series stays in the model as a series that lacks every key.
+// sigC09Race is C09's finding (design defect D2, repaired in /repo by 7b804d6): the first row of a
+// metric that the in-memory metadata does not know yet is handled by the metadata worker
+// (GenMetricID, GenFieldID) and by the shard's index worker (GenMetricID, GenTagKeyID) concurrently;
+// without the repair the two get different metric ids or lose a field / tag key of the schema,
+// nondeterministically ("field not found" for good).
+const sigC09Race = "C09/concurrent-get-or-create-two-ids"
+
+// warm is only used while sigC09Race is listed as an open finding: it registers the metric id on
+// this goroutine first and makes the first row of the metric a tag-less one (never reaches
+// GenTagKeyID), so the race cannot happen. The tag-less series stays in the model as a series that
+// lacks every key.
 func (w *world) warm(metric string, shard models.ShardID) {
 	s, ok := w.byUID[warmUID(metric)]
 	if !ok {
 		s = &seriesT{Metric: metric, Shard: shard, UID: warmUID(metric), Tags: map[string]string{}}
 	}
-	// both workers also call GenMetricID for the row concurrently; two callers of
-	// indexKVStore.getOrCreateValue can get different ids for one new name (design defect D2).
-	// The same call made here first, on one goroutine, leaves them nothing to create.
 	if _, err := w.database().MetaDB().GenMetricID([]byte(commonconstants.DefaultNamespace), []byte(metric)); err != nil {
 		w.t.Fatalf("harness: GenMetricID: %v", err)
 	}
@@ -182,7 +184,7 @@ func (w *world) warm(metric string, shard models.ShardID) {
 // write writes one point of each series (new or already known) in the given order.
 func (w *world) write(batch []*seriesT) {
 	for _, s := range batch {
-		if !w.warmed[s.Metric] {
+		if !w.warmed[s.Metric] && ev.Known(sigC09Race) {
 			w.warm(s.Metric, s.Shard)
 		}
 	}
